@@ -2,6 +2,7 @@ package consensus
 
 import (
 	"github.com/nspcc-dev/dbft"
+	"github.com/nspcc-dev/neo-go/pkg/core/block"
 	"github.com/nspcc-dev/neo-go/pkg/io"
 	"github.com/nspcc-dev/neo-go/pkg/util"
 )
@@ -30,7 +31,7 @@ func (c *changeView) DecodeBinary(r *io.BinReader) {
 	c.timestamp = r.ReadU64LE()
 	c.reason = dbft.ChangeViewReason(r.ReadB())
 	if c.reason == dbft.CVTxInvalid || c.reason == dbft.CVTxRejectedByPolicy {
-		r.ReadArray(&c.rejectedHashes)
+		r.ReadArray(&c.rejectedHashes, block.MaxTransactionsPerBlock)
 	}
 }
 
